@@ -109,6 +109,9 @@ def run_case(case: dict) -> dict:
         ev.append(e)
 
     od = canopen.ObjectDictionary()
+    ptasks, pbufs = [], {}
+    if case.get("fixed_tasks"):
+        bus.modifiable_tasks = False
     for op in case["ops"]:
         o = op["op"]
         raised = False
@@ -250,6 +253,45 @@ def run_case(case: dict) -> dict:
             elif o == "scanreset":
                 net.scanner.reset()
                 log({"e": "scanreset"})
+            elif o in ("pstart", "pupdate", "pstop"):
+                # the raw periodic API (Network.send_periodic -> PeriodicMessageTask): what the bus is asked
+                # to send is the data given last, whatever the caller does with its own buffer afterwards
+                if o == "pstart":
+                    buf = bytearray(op["d"])
+                    given = buf if op.get("as") == "bytearray" else bytes(buf)
+                    ptasks.append(net.send_periodic(op["id"], given, op["period_ms"] / 1000.0, op.get("remote", False)))
+                elif o == "pupdate":
+                    buf = bytearray(op["d"])
+                    if op.get("as") == "same" and id(ptasks[op["h"] - 1]) in pbufs:
+                        # the caller's one buffer, changed in place and handed over again (what the PDO layer does)
+                        buf = pbufs[id(ptasks[op["h"] - 1])]
+                        buf[:] = bytes(op["d"])
+                    given = buf if op.get("as") in ("bytearray", "same") else bytes(buf)
+                    ptasks[op["h"] - 1].update(given)
+                    pbufs[id(ptasks[op["h"] - 1])] = buf
+                else:
+                    ptasks[op["h"] - 1].stop()
+                if op.get("scribble"):
+                    for i in range(len(buf)):
+                        buf[i] ^= 0xFF
+                    if op.get("as") == "same":
+                        pbufs.pop(id(ptasks[op["h"] - 1]), None)
+                per = []
+                for t in ptasks:
+                    run = [ft for ft in bus.tasks if ft.running and ft.msg is t.msg]
+                    if len(run) == 1:
+                        ft = run[0]
+                        per.append({"n": 1, "id": ft.msg.arbitration_id, "frozen": B(ft.frozen), "cur": B(ft.msg.data),
+                                    "rtr": bool(ft.msg.is_remote_frame), "ext": bool(ft.msg.is_extended_id),
+                                    "period": int(round(ft.period * 1e6))})
+                    else:
+                        per.append({"n": len(run), "id": 0, "frozen": [], "cur": [], "rtr": False, "ext": False, "period": 0})
+                e = {"e": o, "h": op.get("h", len(ptasks)), "per": per}
+                if o == "pstart":
+                    e.update(id=op["id"], d=B(bytes(op["d"])), remote=bool(op.get("remote", False)), period=op["period_ms"] * 1000)
+                elif o == "pupdate":
+                    e.update(d=B(bytes(op["d"])))
+                log(e)
         except Exception as exc:  # noqa  driver-level problem
             raise
     for i, e in enumerate(ev):
